@@ -110,3 +110,59 @@ theorem skip_line_identity (e : ParseEnv) (a b : List String) (l : String) (c : 
   exact this
 
 end Dippy
+
+namespace Dippy
+
+def LineResult.logOf : LineResult → Option String
+  | .setLog p => some p
+  | _ => none
+
+def LineResult.isLogFull : LineResult → Bool
+  | .setLogFull => true
+  | _ => false
+
+/-- the `log` setting: the last `set log` line wins -/
+def lastLog (init : Option String) (rs : List LineResult) : Option String :=
+  rs.foldl (fun acc r => match r.logOf with
+    | some p => some p
+    | none => acc) init
+
+theorem applyAll_log (c : Config) (rs : List LineResult) :
+    (applyAll c rs).log = lastLog c.log rs := by
+  induction rs generalizing c with
+  | nil => rfl
+  | cons r rs ih =>
+    have : applyAll c (r :: rs) = applyAll (c.apply r) rs := rfl
+    rw [this, ih]
+    cases r <;> rfl
+
+theorem lastLog_append (init : Option String) (a b : List LineResult) :
+    lastLog init (a ++ b) = lastLog (lastLog init a) b := by
+  unfold lastLog; rw [List.foldl_append]
+
+theorem lastLog_none (init : Option String) (rs : List LineResult) :
+    lastLog init rs = match lastLog none rs with
+      | some p => some p
+      | none => init := by
+  induction rs generalizing init with
+  | nil => cases init <;> rfl
+  | cons r rs ih =>
+    have h1 : ∀ i, lastLog i (r :: rs) = lastLog (match r.logOf with | some p => some p | none => i) rs := fun _ => rfl
+    rw [h1, h1, ih]
+    cases hr : r.logOf with
+    | some p =>
+      simp only
+      rw [ih (some p)]
+      cases lastLog none rs <;> rfl
+    | none => rfl
+
+theorem applyAll_logFull (c : Config) (rs : List LineResult) :
+    (applyAll c rs).logFull = (c.logFull || rs.any LineResult.isLogFull) := by
+  induction rs generalizing c with
+  | nil => simp [applyAll]
+  | cons r rs ih =>
+    have : applyAll c (r :: rs) = applyAll (c.apply r) rs := rfl
+    rw [this, ih]
+    cases r <;> simp [Config.apply, LineResult.isLogFull]
+
+end Dippy
